@@ -380,6 +380,13 @@ Theorem C07_chain_local_shipped : forall s rs, In (s, rs) (combine shipped shipp
 Proof. exact chain_local_shipped. Qed.
 Print Assumptions C07_chain_local_shipped.
 
+(** [reads_att] / [reads_reg] / [reads_sum] address the right entries: in every shipped graph the resolved reads are, by count,
+    attachment + one per-variable regularity for each individual latent variable + the summed regularity (computed). *)
+Theorem C07_shipped_reads_shape :
+  forallb (fun p => Nat.eqb (length (snd p)) (length (sg_ind_latents (fst p)) + 2)) (combine shipped shipped_reads) = true.
+Proof. exact shipped_reads_shape. Qed.
+Print Assumptions C07_shipped_reads_shape.
+
 (** Non-vacuity on the first shipped literal: a cohort of two and its second individual alone, oracles = evaluation of the literal
     (node functions of the announced form, one data row per individual), 3 shuffled annealed iterations over all its individual
     latent variables: every hypothesis of [C07_chain_local_shipped] holds ([sx_base_related] is the one on the fixed inputs), both
